@@ -635,12 +635,217 @@ theorem exec_good (flows : List (String × FlowDef)) : ∀ (fuel : Nat) (s : St)
                 · split
                   · exact g2
                   · split
-                    · exact g2.trans (exec_good flows fuel _ u rest w g2.2.1 hw hlt2)
+                    · exact g2
                     · split
-                      · exact g2
-                      · rename_i g c _
-                        have g3 := g2.trans (good_setCtx w u _ g c g2.2.1 hw)
-                        exact g3.trans (exec_good flows fuel _ u rest w g3.2.1 hw (Nat.lt_of_lt_of_le hlt g3.2.2))
+                      · exact g2.trans (exec_good flows fuel _ u rest w g2.2.1 hw hlt2)
+                      · split
+                        · exact g2
+                        · rename_i g c _
+                          have g3 := g2.trans (good_setCtx w u _ g c g2.2.1 hw)
+                          exact g3.trans (exec_good flows fuel _ u rest w g3.2.1 hw (Nat.lt_of_lt_of_le hlt g3.2.2))
+
+/-! ### frame of the GLOBAL context over whole executions -/
+
+/-- some instance of the state has declared `k` global (`_global_k` is in its context) -/
+def DeclaredIn (s : St) (k : String) : Prop :=
+  ∃ w f, findInst w s.insts = some f ∧ has (globalKey k) f.context = true
+
+/-- instances persist and their contexts only gain keys -/
+def KeysGrow (l l' : List (Nat × Inst)) : Prop :=
+  ∀ w f, findInst w l = some f → ∃ f', findInst w l' = some f' ∧ ∀ K, has K f.context = true → has K f'.context = true
+
+/-- `s'` was reached from `s` keeping all instances/keys, and every global variable that no
+    instance of `s'` has declared global has the value it had in `s` -/
+def GStep (s s' : St) : Prop :=
+  KeysGrow s.insts s'.insts ∧ ∀ k, ¬ DeclaredIn s' k → lookup (.name k) s'.globals = lookup (.name k) s.globals
+
+theorem KeysGrow.refl (l : List (Nat × Inst)) : KeysGrow l l := fun _ f h => ⟨f, h, fun _ hk => hk⟩
+
+theorem KeysGrow.trans {a b c : List (Nat × Inst)} (h1 : KeysGrow a b) (h2 : KeysGrow b c) : KeysGrow a c := by
+  intro w f hf
+  obtain ⟨f', hf', hk'⟩ := h1 w f hf
+  obtain ⟨f'', hf'', hk''⟩ := h2 w f' hf'
+  exact ⟨f'', hf'', fun K hK => hk'' K (hk' K hK)⟩
+
+theorem declared_mono {s s' : St} (h : KeysGrow s.insts s'.insts) {k : String} (hd : DeclaredIn s k) : DeclaredIn s' k := by
+  obtain ⟨w, f, hf, hk⟩ := hd
+  obtain ⟨f', hf', hk'⟩ := h w f hf
+  exact ⟨w, f', hf', hk' _ hk⟩
+
+theorem GStep.refl (s : St) : GStep s s := ⟨KeysGrow.refl _, fun _ _ => rfl⟩
+
+theorem GStep.trans {a b c : St} (h1 : GStep a b) (h2 : GStep b c) : GStep a c :=
+  ⟨h1.1.trans h2.1, fun k hk => (h2.2 k hk).trans (h1.2 k (fun hd => hk (declared_mono h2.1 hd)))⟩
+
+theorem findInst_replace_eq (u : Nat) (f f0 : Inst) : ∀ l : List (Nat × Inst), findInst u l = some f0 →
+    findInst u (replaceInst u f l) = some f
+  | [], h => by simp [findInst] at h
+  | (u', f') :: r, h => by
+    by_cases h1 : u' = u
+    · simp [replaceInst, findInst, h1]
+    · simp only [findInst, h1, if_false] at h
+      simp [replaceInst, findInst, h1, findInst_replace_eq u f f0 r h]
+
+theorem findInst_append_some (w : Nat) (f : Inst) (x : Nat × Inst) : ∀ l : List (Nat × Inst), findInst w l = some f →
+    findInst w (l ++ [x]) = some f
+  | [], h => by simp [findInst] at h
+  | (u', f') :: r, h => by
+    by_cases h1 : u' = w
+    · simpa [findInst, h1] using h
+    · simp only [findInst, h1, if_false] at h
+      simp [findInst, h1, findInst_append_some w f x r h]
+
+theorem findInst_append_self (n : Nat) (f : Inst) : ∀ l : List (Nat × Inst), (findInst n (l ++ [(n, f)])).isSome
+  | [] => by simp [findInst]
+  | (u', f') :: r => by
+    by_cases h1 : u' = n
+    · simp [findInst, h1]
+    · simpa [findInst, h1] using findInst_append_self n f r
+
+theorem ctxOf_of_find {s : St} {u : Nat} {f : Inst} (h : findInst u s.insts = some f) : s.ctxOf u = f.context := by
+  simp [St.ctxOf, h]
+
+/-- `setCtx` with a context that keeps all keys of the old one -/
+theorem keysGrow_setCtx (s : St) (u : Nat) (g c : Ctx) (hc : ∀ K, has K (s.ctxOf u) = true → has K c = true) :
+    KeysGrow s.insts (s.setCtx u g c).insts := by
+  intro w f hf
+  unfold St.setCtx
+  cases hu : findInst u s.insts with
+  | none => exact ⟨f, hf, fun _ h => h⟩
+  | some fu =>
+    simp only
+    by_cases hw : w = u
+    · subst hw
+      rw [hu] at hf; cases hf
+      refine ⟨_, findInst_replace_eq w _ f _ hu, fun K hK => ?_⟩
+      exact hc K (by rw [ctxOf_of_find hu]; exact hK)
+    · exact ⟨f, by rw [findInst_replace_ne u w _ hw]; exact hf, fun _ h => h⟩
+
+theorem has_set_of_has (K k : Key) (v : Val) (c : Ctx) (h : has K c = true) : has K (set k v c) = true := by
+  rw [has_eq_true_iff] at h ⊢
+  rw [mem_keys_set]; exact Or.inr h
+
+theorem find_setCtx_self (s : St) (u : Nat) (g c : Ctx) (f : Inst) (hu : findInst u s.insts = some f) :
+    findInst u (s.setCtx u g c).insts = some { f with context := c } := by
+  unfold St.setCtx
+  rw [hu]
+  exact findInst_replace_eq u _ f _ hu
+
+theorem setCtx_globals (s : St) (u : Nat) (g c : Ctx) : (s.setCtx u g c).globals = g := by
+  unfold St.setCtx
+  cases findInst u s.insts <;> rfl
+
+theorem name_ne_of_ne {a b : String} (h : a ≠ b) : Key.name a ≠ Key.name b := fun e => h (by injection e)
+
+/-- one `Assignment` (also the return-value assignment of `$x = await f`) -/
+theorem gstep_assign (s : St) (u : Nat) (f : Inst) (hu : findInst u s.insts = some f) (key : String) (v : Val) :
+    GStep s (s.setCtx u (assignCtx key v s.globals (s.ctxOf u)).1 (assignCtx key v s.globals (s.ctxOf u)).2) := by
+  refine ⟨keysGrow_setCtx s u _ _ ?_, ?_⟩
+  · intro K hK
+    unfold assignCtx
+    by_cases hg : has (globalKey key) (s.ctxOf u) = true
+    · simpa [hg] using hK
+    · simp only [hg]; exact has_set_of_has K _ v _ hK
+  · intro k hk
+    rw [setCtx_globals]
+    unfold assignCtx
+    by_cases hg : has (globalKey key) (s.ctxOf u) = true
+    · simp only [hg, if_true]
+      by_cases hkk : k = key
+      · subst hkk
+        exfalso; apply hk
+        refine ⟨u, _, find_setCtx_self s u _ _ f hu, ?_⟩
+        simpa [assignCtx, hg] using hg
+      · exact lookup_set_ne _ _ _ _ (name_ne_of_ne hkk)
+    · simp [hg]
+
+/-- one `global $x` statement -/
+theorem gstep_global (s : St) (u : Nat) (f : Inst) (hu : findInst u s.insts = some f) (x : String) :
+    GStep s (s.setCtx u (globalCtx x s.globals (s.ctxOf u)).1 (globalCtx x s.globals (s.ctxOf u)).2) := by
+  refine ⟨keysGrow_setCtx s u _ _ (fun K hK => has_set_of_has K _ _ _ hK), ?_⟩
+  intro k hk
+  rw [setCtx_globals]
+  by_cases hkk : k = x
+  · subst hkk
+    exfalso; apply hk
+    refine ⟨u, _, find_setCtx_self s u _ _ f hu, ?_⟩
+    simp only [globalCtx]
+    rw [has_eq_true_iff, mem_keys_set]; exact Or.inl rfl
+  · simp only [globalCtx]
+    by_cases hh : has (Key.name x) s.globals = true
+    · simp [hh]
+    · simp only [hh]; exact lookup_set_ne _ _ _ _ (name_ne_of_ne hkk)
+
+theorem gstep_ret (s : St) (u : Nat) (v : Val) : GStep s (s.setCtx u s.globals (returnCtx v (s.ctxOf u))) :=
+  ⟨keysGrow_setCtx s u _ _ (fun K hK => has_set_of_has K _ _ _ hK), fun k _ => by rw [setCtx_globals]⟩
+
+theorem gstep_add (s : St) (n : Nat) (f : Inst) : GStep s { s with insts := s.insts ++ [(n, f)], next := n + 1 } :=
+  ⟨fun w f' hf => ⟨f', findInst_append_some w f' _ _ hf, fun _ h => h⟩, fun _ _ => rfl⟩
+
+theorem exists_of_gstep {s s' : St} (h : GStep s s') {u : Nat} (hu : (findInst u s.insts).isSome) :
+    ∃ f, findInst u s'.insts = some f := by
+  obtain ⟨f, hf⟩ := Option.isSome_iff_exists.1 hu
+  obtain ⟨f', hf', _⟩ := h.1 u f hf
+  exact ⟨f', hf'⟩
+
+/-- Frame theorem for the global context over whole executions. -/
+theorem exec_gstep (flows : List (String × FlowDef)) : ∀ (fuel : Nat) (s : St) (u : Nat) (body : List Stmt),
+    (findInst u s.insts).isSome → GStep s (exec flows fuel s u body).1
+  | 0, s, u, body, _ => by simp only [exec]; exact GStep.refl s
+  | fuel + 1, s, u, [], _ => by simp only [exec]; exact GStep.refl s
+  | fuel + 1, s, u, stmt :: rest, hu => by
+    obtain ⟨fu, hfu⟩ := Option.isSome_iff_exists.1 hu
+    have cont : ∀ s', GStep s s' → GStep s (exec flows fuel s' u rest).1 := fun s' g1 =>
+      g1.trans (exec_gstep flows fuel s' u rest (by obtain ⟨f', hf'⟩ := exists_of_gstep g1 hu; simp [hf']))
+    cases stmt with
+    | assign k e => simp only [exec]; exact cont _ (gstep_assign s u fu hfu k _)
+    | global x => simp only [exec]; exact cont _ (gstep_global s u fu hfu x)
+    | ret e => simp only [exec]; exact gstep_ret s u _
+    | send name args => simp only [exec]; exact cont { s with out := _ } ⟨KeysGrow.refl _, fun _ _ => rfl⟩
+    | block => simp only [exec]; exact GStep.refl s
+    | call form retVar flow pos named =>
+      simp only [exec]
+      split
+      · exact GStep.refl s
+      · rename_i d _
+        split
+        · exact GStep.refl s
+        · rename_i f0 _
+          split
+          · exact gstep_add s s.next f0
+          · rename_i f1 _
+            have g1 := gstep_add s s.next f1
+            have g2 := g1.trans (exec_gstep flows fuel _ s.next d.body (findInst_append_self _ _ _))
+            obtain ⟨fu2, hfu2⟩ := exists_of_gstep g2 hu
+            have cont2 : ∀ s', GStep s s' → GStep s (exec flows fuel s' u rest).1 := cont
+            split
+            · exact g2
+            · exact g2
+            · exact g2
+            · split
+              · exact g2
+              · split
+                · exact cont2 _ g2
+                · split
+                  · exact g2
+                  · split
+                    · exact g2
+                    · split
+                      · exact cont2 _ g2
+                      · split
+                        · exact g2
+                        · rename_i g c hcap
+                          refine cont2 _ (g2.trans ?_)
+                          simp only [captureReturn] at hcap
+                          split at hcap
+                          · rename_i v _
+                            have e := Option.some.inj hcap
+                            have e1 := congrArg Prod.fst e
+                            have e2 := congrArg Prod.snd e
+                            simp only at e1 e2
+                            rw [← e1, ← e2]
+                            exact gstep_assign _ u fu2 hfu2 _ v
+                          · cases hcap
 
 end NemoVerif.Bind
 
